@@ -21,6 +21,10 @@ Stages
      make_solver on static_matrix<vq::Q,2,2> (exact: model of the solver on the EXPANDED scalar system digit for digit +
      truthfulness oracle) and on std::complex<double> (dyadic data: truthfulness oracle by exact recomputation on the
      expanded real system, binary64 tolerance), both preconditioning sides, id / (block-)diagonal / matrix preconditioners.
+  6. right-hand sides just above the trivial-exit threshold (window_cases): 2 eps <= ||f|| < 2 eps n for n = 3..40 (2^-50 e_i,
+     2^-51 e_i = the threshold itself, 2^-e * small integers) and controls at / above 2 eps n, all eight solvers, through stages
+     1, 2 (exact), 4 (binary64) and 3 (double, the whole problem scaled by a power of two): the solver must iterate and return
+     the true relative residual (theorems C01_trivial_exit_only_below_two_eps, C01_trivial_exit_independent_of_n).
 """
 import random
 from fractions import Fraction as F
@@ -176,6 +180,88 @@ def float_cases(tier, seed):
     return out
 
 
+# ---------------------------------------------------------------- right-hand sides just above the trivial-exit threshold
+# The prologue of all eight solvers takes the trivial-solution exit for norm_rhs < eps(1) = 2*epsilon (Krylov.eps1;
+# theorems C01_trivial_exit_only_below_two_eps, C01_trivial_exit_independent_of_n).  eps<T>(n) = 2*epsilon*n takes a size
+# argument: a threshold that scales with the number of unknowns treats every right-hand side with
+# 2 eps <= ||f|| < 2 eps n as zero.  These cases sit in that window (n = 3..40), on its lower edge (||f|| = 2 eps exactly)
+# and, as controls, at / above its upper edge; epsilon = 2^-52 in both builds (vq::Q: numeric_limits<Q>::epsilon()).
+EPS2 = F(1, 2 ** 51)                                  # 2 * epsilon
+
+def _norm2(f): return sum((v * v for v in f), F(0))
+
+def window_rhs(r, n, kind):
+    """a right-hand side of length n; kind: unit | edge | ints (all: 2 eps <= ||f|| < 2 eps n) | at | above (controls).
+    Returns (f, in_window)"""
+    i = r.randrange(n)
+    f = [F(0)] * n
+    if kind == "unit": f[i] = F(r.choice([1, -1]), 2 ** 50); return f, True          # ||f|| = 2^-50 = 4 eps
+    if kind == "edge": f[i] = F(r.choice([1, -1]), 2 ** 51); return f, True          # ||f|| = 2 eps: NOT below the threshold
+    if kind == "at":   f[i] = EPS2 * n; return f, False                             # ||f|| = 2 eps n
+    if kind == "above":
+        ks = [r.randint(-3, 3) for _ in range(n)]
+        if all(k == 0 for k in ks): ks[i] = 1
+        e = 51
+        while _norm2([F(k, 2 ** e) for k in ks]) < (EPS2 * n) ** 2 * 2: e -= 1       # ||f|| >= sqrt(2) * 2 eps n
+        return [F(k, 2 ** e) for k in ks], False
+    # ints: 2^-e * (a few small integers), with a margin to both edges: 2 (2 eps)^2 <= ||f||^2 <= (2 eps n)^2 / 2
+    for _ in range(50):
+        ks = [0] * n
+        for j in r.sample(range(n), r.randint(1, min(n, 5))): ks[j] = r.choice([-3, -2, -1, 1, 2, 3])
+        ok = [e for e in range(44, 54) if 2 * EPS2 ** 2 <= _norm2([F(k, 2 ** e) for k in ks]) <= (EPS2 * n) ** 2 / 2]
+        if ok:
+            e = r.choice(ok)
+            return [F(k, 2 ** e) for k in ks], True
+    f[i] = F(1, 2 ** 50); return f, True
+
+
+def window_cases(tier, seed):
+    r = random.Random(seed * 1000 + 7)
+    out = []
+    quick = tier == "quick"
+    for solver in kc.SOLVERS:
+        heavy = solver not in kc.SQRT_FREE
+        # 1. exact build vs model + truthfulness oracle
+        ns_ = sorted(set([3, 40] + r.sample(range(4, 40), 3 if quick else 10)))
+        for n in ns_:
+            for kind in ["unit", "edge", "ints", "above"] + (["at"] if n in (3, 40) else []):
+                sym = kc.sym_needed(solver) or r.random() < 0.4
+                pkind = r.choice(["id", "diag", "jacmat"])
+                S = kc.make_sys(r, n, sym, pkind)
+                S.f, _ = window_rhs(r, n, kind)
+                if r.random() < 0.3: S.x0 = [v / 2 ** 50 for v in S.x0]               # a guess of the size of the solution
+                prm = dict(maxiter=r.choice([1, 2]) if heavy else r.choice([1, 2, 3]), tol=r.choice([F(0), TOL10]), M=r.choice([1, 2, 4]),
+                           L=r.choice([1, 2]), K=r.choice([0, 1]), s=r.choice([1, 2]), damping=r.choice([F(1), F(1, 2)]),
+                           smoothing=int(r.random() < 0.3), replacement=int(r.random() < 0.3))
+                out.append(kc.solve_line("w%d" % len(out), solver, kc.side_for(r, solver), S, **prm))
+        # 2. binary64 build vs model at binary64
+        for n in sorted(set([3, 40] + r.sample(range(4, 40), 3 if quick else 8))):
+            for kind in ["unit", "ints", "edge"]:
+                S = kc.dyadic_sys(r, n, solver)
+                S.f, _ = window_rhs(r, n, kind)
+                if r.random() < 0.5: S.x0 = [v / 2 ** 50 for v in S.x0]
+                prm = kc.dyadic_prm(r, maxiter=r.choice([5, 20, 60]))
+                out.append(kc.solve_line("w%d" % len(out), solver, kc.side_for(r, solver), S, op="f64", **prm))
+        # 3. double build, long double recomputation: the whole problem scaled by a power of two into the window
+        for n in [3, 17, 40] + ([150] if quick else [80, 150, 300]):
+            sym = kc.sym_needed(solver) or r.random() < 0.5
+            rows = gen.spd_mmatrix(r, n, extra_diag=F(r.choice([1, 2, 3]), 1)) if sym else gen.nonsym_dd(r, n, density=min(1.0, 4.0 / n))
+            D = {i: dict(rw)[i] for i, rw in enumerate(rows)}
+            f0 = [F(r.randint(-8, 8), 4) for _ in range(n)]
+            if all(v == 0 for v in f0): f0[0] = F(1)
+            es = [e for e in range(40, 60) if 2 * EPS2 ** 2 <= _norm2(f0) / 4 ** e <= (EPS2 * n) ** 2 / 2]
+            if not es: f0 = [F(0)] * n; f0[r.randrange(n)] = F(1); es = [50]
+            e = r.choice(es)
+            f = [v / 2 ** e for v in f0]
+            x0 = [F(0)] * n if r.random() < 0.5 else [F(r.randint(-4, 4), 2) / 2 ** e for _ in range(n)]
+            pk = "diag" if solver == "richardson" else r.choice(["id", "diag"])
+            S = kc.Sys(n, rows, pk, [F(1) / D[i] for i in range(n)] if pk == "diag" else None, f, x0, sym)
+            prm = dict(maxiter=100, tol=F(1, 10 ** 8), M=r.choice([5, 30]), L=r.choice([1, 2]), K=r.choice([1, 3]), s=r.choice([1, 4]),
+                       damping=F(3, 4) if solver == "richardson" else F(1))
+            out.append("w%d d.truth 100 %s %s %s %s %s" % (len(out), solver, kc.side_for(r, solver), S.pk, kc.fmt_prm(**prm), S.call_tokens()))
+    return out
+
+
 def vt_cases(tier, seed):
     """block / complex valued systems: two lines per case (same id): the value-type line for drv_krylov_vt and the
     expanded scalar system (written with op vt.scalar; it is a `solve` line of the scalar driver)"""
@@ -187,7 +273,7 @@ def vt_cases(tier, seed):
 
 def cases(tier, seed):
     return (float_cases(tier, seed) + exact_cases(tier, seed) + shadow_cases(tier, seed) + probe_cases(tier, seed) + double_cases(tier, seed)
-            + vt_cases(tier, seed))
+            + window_cases(tier, seed) + vt_cases(tier, seed))
 
 
 def run(ctx, cases_override=None):
